@@ -230,8 +230,8 @@ class C17(PropBase):
             posq = {v: i for i, v in enumerate(topo_q)}     # Q[T] was written under this order: it has to stay valid too
             have = {tuple(e) for e in g["dir"]}
             addable = [(u, v) for u in topo for v in topo if pos[u] < pos[v] and posq[u] < posq[v] and (u, v) not in have]
-            if not addable and not have:
-                raise LookupError
+            if (not addable and not have) or case.get("condq"):
+                raise LookupError      # (for a Q[T] handed over as P(T | Z) an edited graph would need another Q[T])
             if addable and (r2.random() < 0.7 or not have):
                 e2 = r2.choice(addable); dir2 = g["dir"] + [list(e2)]
             else:
